@@ -218,7 +218,10 @@ def run_history(case, ctx):
             elif kind == "remove" and not has_var:
                 if sim.N > 0:
                     settle(sim)
-                    sim.remove(o[1] % sim.N)
+                    # the first body is the central one of the Wisdom-Holman / hybrid schemes: it is only removed
+                    # as the last particle (a massless body left in slot 0 is not a valid state for them: TRACE
+                    # then spends unbounded time in its encounter integrator)
+                    sim.remove(0 if sim.N == 1 else 1 + o[1] % (sim.N - 1))
             elif kind == "remove_all" and not has_var:
                 settle(sim)
                 del sim.particles
